@@ -346,6 +346,11 @@ def run(prog, rep):
     for c in extra:
         rep.violation('R6', loc(ns.module, c), 'NetworkService.peer', norm(c), 'the interface is recorded twice (add_interface already appends it)')
 
+    # ---- R12: handle caches follow removals (shared with C08) ----
+    rep.rule('R12', 'the interface cache of a handle is rebuilt without the removed child after every removal through it', floor=5)
+    from .c08 import check_cache_after_removal
+    check_cache_after_removal(prog, rep, 'R12')
+
     # ---- R7 ----
     for spec in ('fim.user.topology:Topology',):
         cls = prog.cls(spec)
